@@ -1,6 +1,7 @@
 package cfs
 
 import (
+	"sort"
 	"fmt"
 	"os"
 	"path/filepath"
@@ -48,6 +49,17 @@ func genTree(depth int) *rapid.Generator[*vfs.Node] {
 		}
 		return d
 	})
+}
+
+func filePaths(t *vfs.Node) []string {
+	var l []string
+	t.Walk(func(p string, x *vfs.Node) {
+		if !x.Dir {
+			l = append(l, p)
+		}
+	})
+	sort.Strings(l)
+	return l
 }
 
 func existingPaths(t *vfs.Node) []string {
@@ -166,6 +178,10 @@ func TestEngineB(t *testing.T) {
 		init := genTree(3).Draw(rt, "tree")
 		e.set(init)
 		c := Case{Tree: ToJ(init)}
+		if files := filePaths(init); len(files) > 0 && rapid.IntRange(0, 3).Draw(rt, "oldfile") == 0 {
+			c.MTimes = map[string]int64{rapid.SampledFrom(files).Draw(rt, "oldpath"): rapid.SampledFrom([]int64{0, -1, 1, -1000000000, 253402300799}).Draw(rt, "oldtime")}
+			e.setTimes(c.MTimes)
+		}
 		mutated := false
 		steps := 0
 		rt.Repeat(map[string]func(*rapid.T){
